@@ -676,8 +676,13 @@ Fixpoint chunks {A} (sizes : list nat) (l : list A) : option (list (list A)) :=
   end.
 
 (* ------------------------------------------------------------------ cases *)
+(* how the request body reached the parser: one Read, one byte per Read, 1..1500 or 1..64 bytes per Read (sizes from
+   a PRNG with the given seed).  Deliberately NOT an argument of [decode], [read_row] or [spec_ok]: the rows, the stored
+   payload (the span's own text) and the read-back are functions of the request alone — see segmentation_irrelevant. *)
+Record delivery := { d_mode : Z; d_seed : Z }.
+
 Record case := {
-  c_id : Z; c_in : input;
+  c_id : Z; c_in : input; c_delivery : delivery;
   c_err : bool;                      (* the parser answered an error *)
   c_rows : list trow;                (* TempoSamples rows, in order *)
   c_tags : list arow;                (* TempoTag rows, in order *)
@@ -771,6 +776,9 @@ Definition spec_ok (c : case) : bool :=
            else true
        end.
 Definition spec_violation (c : case) : bool := negb (spec_ok c).
+
+Definition with_delivery (c : case) (d : delivery) : case :=
+  {| c_id := c_id c; c_in := c_in c; c_delivery := d; c_err := c_err c; c_rows := c_rows c; c_tags := c_tags c; c_read := c_read c |}.
 
 Definition mismatches (cs : list case) : list Z := map c_id (filter model_mismatch cs).
 Definition spec_violations (cs : list case) : list Z := map c_id (filter spec_violation cs).
